@@ -15,7 +15,26 @@ def again(prog, env, **kw):
         return None
     if any(b.items and not b.is_flushed() for b in env.batches):
         return None
+    engine.interlude()
+    pre = getattr(env, "pre_next", None)
+    if pre is not None:
+        # the root task object of this second run was created before the first run started
+        return engine.run_program(pre.prog, reset=False, prepared=pre, **kw)
     return engine.run_program(copy.deepcopy(prog), reset=False, **kw)
+
+
+def first(prog, **kw):
+    """the first run; for some programs the second run's root task object is created beforehand"""
+    from . import engine
+    d = int(digest(prog)[-2], 16)
+    if prog.get("conv", "value") == "value" and d % 2 and not int(digest(prog)[-1], 16) % 2:
+        engine.reset_process_state()
+        p2 = copy.deepcopy(prog)
+        pre = engine.prepare(p2)
+        env = engine.run_program(prog, reset=False, **kw)
+        env.pre_next = pre
+        return env
+    return engine.run_program(prog, **kw)
 
 
 def second(viol):
